@@ -149,6 +149,41 @@ class Runner:
         return {"id": rid, "strict": True, "a": a, "b": b, "argv": " ".join(full[1:])}
 
 
+def compress_records(ck, wd, trans):
+    """`-T xorcomp N [d]` / `-T majcomp N [d]`: the graph is drawn by the command line and not shown, so the
+    run is judged against VariableCompression on SOME d-left-regular graph (JudgeCompress.tla), not against a
+    re-enactment of the draws."""
+    import cnfgen
+    from cnfgen.graphs import bipartite_random_left_regular
+    import cnfgen.transformations.substitutions as S
+    path = os.path.join(wd, "cbase.cnf")
+    with open(path, "w") as f:
+        f.write("p cnf 3 3\n1 -2 0\n2 3 0\n-1 -3 0\n")
+    bases = [["or", "2", "1"], ["dimacs", path], ["php", "1", "2"]]
+    recs = []
+    for t in trans:
+        if not t["fn"].endswith("_random"):
+            continue
+        kind = "xorcomp" if "xor" in t["fn"] else "majcomp"
+        N, d = int(t["pos"][0]["i"]), int(t["pos"][1]["i"])
+        for j, b in enumerate(bases):
+            for s_ in (SEED, SEED + 1):
+                head = ["cnfgen", "-q", "--seed", str(s_)] + b
+                base = side(lambda: cliargs.call_cli("cnfgen", head))
+                res = side(lambda: cliargs.call_cli("cnfgen", head + ["-T"] + list(t["tok"])))
+                names = []
+                if base["outcome"] == "ok" and d <= N:
+                    F0 = cliargs.call_cli("cnfgen", head)
+                    B = bipartite_random_left_regular(F0.number_of_variables(), N, d, seed=1)
+                    names = [str(x) for x in S.VariableCompression(F0, B, "xor" if kind == "xorcomp" else "maj").all_variable_labels()]
+                recs.append({"id": "comp-%s-%s-%d-%d" % ("_".join(t["tok"]), b[0], j, s_), "kind": kind, "N": N, "d": d,
+                             "base": {"outcome": base["outcome"], "nvars": base["nvars"], "clauses": base.get("clauses", [])},
+                             "res": {"outcome": res["outcome"], "nvars": res["nvars"], "clauses": res.get("clauses", []),
+                                     "labels": res["labels"]},
+                             "names": names, "argv": " ".join(head[1:] + ["-T"] + list(t["tok"]))})
+    return recs
+
+
 def main(argv=None):
     ck = common.Check("C17", argv)
     common.setup_repo_import()
@@ -177,6 +212,8 @@ def main(argv=None):
     if len(bases) < 5:
         raise tlc.MachineryError("base commands for chains not found in the table")
     n = 0
+    crecs = compress_records(ck, wd, trans)
+    trans = [t for t in trans if not t["fn"].endswith("_random")]
     for b in bases:
         for t in trans:
             n += 1
@@ -258,6 +295,8 @@ def main(argv=None):
     for r in (recs[0], recs[len(cmds) + 5], recs[-1]):
         ck.sample({"id": r["id"], "argv": r["argv"], "classes": [r["a"]["cls"], r["b"]["cls"]],
                    "nvars": r["a"]["nvars"], "outcomes": [r["a"]["outcome"], r["b"]["outcome"]]})
+    ck.count("compression_shortcut_runs", len(crecs))
+    ck.judge("JudgeCompress", crecs, cfg="Judge.cfg", weight=lambda r: 1 + 20 ** min(3, r["base"]["nvars"]))
     ck.judge("JudgePair", recs, cfg="Judge.cfg",
              weight=lambda r: 1 + len(r["a"].get("clauses", r["a"].get("constraints", []))))
     ck.assumptions += ["random choices: the same seed is installed before the command line builds and before the library "
